@@ -359,6 +359,13 @@ func ruleImplicitPanic(w *World, r *Run, rule string, reach map[*ssa.Function]bo
 				case "typeassert":
 					kind = "typeassert"
 					desc = descOperand(ev.Recv) + ".(" + ev.Callee + ")"
+					// what comes out of a sync.Pool is what its New function makes and what Put puts in: when every pool of the
+					// module is fed values of the asserted type only, the assertion cannot fail
+					if ev.Recv != nil && ev.Recv.Kind == "call" && ev.Recv.Name == "(*sync.Pool).Get" {
+						if ts := poolElementTypes(w); len(ts) == 1 && ts[ev.Callee] {
+							ok, why = true, "every sync.Pool of the module is fed values of this type only (New and Put)"
+						}
+					}
 				default:
 					continue
 				}
@@ -1062,4 +1069,53 @@ func sizeDerived(t *Term, depth int) bool {
 		}
 	}
 	return false
+}
+
+// poolElementTypes: the static types of the values production code feeds into sync.Pools (returned by functions stored in a
+// Pool's New field, passed to Put).
+func poolElementTypes(w *World) map[string]bool {
+	out := map[string]bool{}
+	addIface := func(v ssa.Value) {
+		if mi, ok := v.(*ssa.MakeInterface); ok {
+			out[typeStr(mi.X.Type())] = true
+		} else {
+			out["?"+typeStr(v.Type())] = true
+		}
+	}
+	for _, fn := range w.prodFns() {
+		for _, b := range fn.Blocks {
+			for _, in := range b.Instrs {
+				switch x := in.(type) {
+				case *ssa.Store:
+					fa, ok := x.Addr.(*ssa.FieldAddr)
+					if !ok || fieldOfAddr(fa).Name() != "New" || !strings.HasSuffix(typeStr(fa.X.Type()), "sync.Pool") {
+						continue
+					}
+					var nf *ssa.Function
+					switch f := x.Val.(type) {
+					case *ssa.Function:
+						nf = f
+					case *ssa.MakeClosure:
+						nf, _ = f.Fn.(*ssa.Function)
+					}
+					if nf == nil {
+						out["?unknown New"] = true
+						continue
+					}
+					for _, nb := range nf.Blocks {
+						for _, ni := range nb.Instrs {
+							if ret, ok := ni.(*ssa.Return); ok && len(ret.Results) == 1 {
+								addIface(ret.Results[0])
+							}
+						}
+					}
+				case ssa.CallInstruction:
+					if ssaCallName(x.Common()) == "(*sync.Pool).Put" && len(x.Common().Args) == 2 {
+						addIface(x.Common().Args[1])
+					}
+				}
+			}
+		}
+	}
+	return out
 }
